@@ -203,6 +203,11 @@ def run(ctx):
     def rank(sig):
         pre = sig.split("/")[0]
         return (order.index(pre) if pre in order else len(order), sig)
+    # A conformant line that the client refuses is not a C11 matter (the statement asks for no panic /
+    # blow-up and for errors on invalid data; delivery of valid data is C03's): it is noted, not a verdict.
+    for sig in [x for x in rounds if x.startswith("conformant-rejected/")]:
+        ctx.notes.append("note (outside C11): %s x%d" % (sig, len(rounds[sig])))
+        del rounds[sig]
     for k in range(4):
         for sig in sorted(rounds, key=rank):
             if k < len(rounds[sig]):
